@@ -151,11 +151,26 @@ func init() {
 			x.note("measurement self-test: strings.ToUpper(300 bytes) = %d mallocs", m)
 		}
 		// per function measurement: every exported function of both packages separately
+		// every shape also with its needle replaced by the single byte / single code point of the shape
+		// (the one-byte and one-rune paths of Index, LastIndex, Count, Cut, IndexAny: kernels, countRune)
+		var all []shape
 		for _, sh := range shapes {
+			all = append(all, sh)
+			if sh.c != 0 {
+				all = append(all, shape{sh.name + "/needle=1 byte", sh.s, []byte{sh.c}, sh.r, sh.c})
+			}
+			if sh.r > 0 {
+				all = append(all, shape{sh.name + "/needle=1 rune", sh.s, []byte(string(sh.r)), sh.r, sh.c})
+			}
+		}
+		for _, sh := range all {
 			s, t := string(sh.s), string(sh.t)
 			sb, tb := append([]byte{}, sh.s...), append([]byte{}, sh.t...)
 			for i := range fnDefs {
 				d := &fnDefs[i]
+				if d.kind != kSS && (strings.HasSuffix(sh.name, "1 byte") || strings.HasSuffix(sh.name, "1 rune")) {
+					continue
+				}
 				var ms, mb uint64
 				rr := int64(sh.r)
 				if d.kind == kSB {
